@@ -49,14 +49,16 @@ func (ml MultiLineString) Distance(p Point) float64 {
 
 // Clip returns the part of the receiver that falls within the given polygon.
 func (ml MultiLineString) Clip(p Polygonal) Linear {
-	pTemp := make(Polygon, len(ml))
-	for i, l := range ml {
-		pTemp[i] = Path(l)
-	}
-	pTemp = pTemp.op(p, polyclip.CLIPLINE)
-	o := make(MultiLineString, len(pTemp))
-	for i, pp := range pTemp {
-		o[i] = LineString(pp[0 : len(pp)-1])
+	// Each line is clipped on its own. The clipper joins pieces that share an
+	// end point, and it only returns open chains: clipped together, two lines
+	// that run between the same two points inside p (two routes between the
+	// same junctions) would close up into a ring and be lost.
+	o := make(MultiLineString, 0, len(ml))
+	for _, l := range ml {
+		pTemp := Polygon{Path(l)}.op(p, polyclip.CLIPLINE)
+		for _, pp := range pTemp {
+			o = append(o, LineString(pp[0:len(pp)-1]))
+		}
 	}
 	return o
 }
